@@ -41,6 +41,7 @@ func runC08(c *core.Ctx) {
 
 	// ---- optnil
 	checkOptNil(c, "sim.optnil", u, ifuncs)
+	checkDiscardedErrorValue(c, ifuncs)
 	c.Floor("sim.optnil", 20)
 
 	// ---- arithmetic
